@@ -285,25 +285,34 @@ func exec(line string) string {
 		return "no-such-path"
 	}
 	defer setPath(alg, "auto")
+	var m mutLog
 	switch o.Cmd {
 	case "sum":
-		data := o.Hex("data")
-		if alg == "b" {
-			switch o.Int("size") {
-			case 64:
-				s := blake2b.Sum512(data)
-				return hx.Hex(s[:])
-			case 48:
-				s := blake2b.Sum384(data)
-				return hx.Hex(s[:])
-			case 32:
-				s := blake2b.Sum256(data)
-				return hx.Hex(s[:])
+		var res string
+		m.input("data", o.Hex("data"), func(data []byte) {
+			if alg == "b" {
+				switch o.Int("size") {
+				case 64:
+					s := blake2b.Sum512(data)
+					res = hx.Hex(s[:])
+				case 48:
+					s := blake2b.Sum384(data)
+					res = hx.Hex(s[:])
+				case 32:
+					s := blake2b.Sum256(data)
+					res = hx.Hex(s[:])
+				default:
+					res = "bad-op"
+				}
+				return
 			}
-			return "bad-op"
+			s := blake2s.Sum256(data)
+			res = hx.Hex(s[:])
+		})
+		if res == "bad-op" {
+			return res
 		}
-		s := blake2s.Sum256(data)
-		return hx.Hex(s[:])
+		return res + " mut=" + m.String()
 	case "hist":
 		var h hash.Hash
 		var err error
@@ -311,44 +320,60 @@ func exec(line string) string {
 		if len(key) == 0 {
 			key = nil
 		}
-		switch alg + "." + o.Str("ctor") {
-		case "b.new":
-			h, err = blake2b.New(o.Int("size"), key)
-		case "b.new512":
-			h, err = blake2b.New512(key)
-		case "b.new384":
-			h, err = blake2b.New384(key)
-		case "b.new256":
-			h, err = blake2b.New256(key)
-		case "s.new256":
-			h, err = blake2s.New256(key)
-		case "s.new128":
-			h, err = blake2s.New128(key)
-		case "b.reg512":
-			h = crypto.BLAKE2b_512.New()
-		case "b.reg384":
-			h = crypto.BLAKE2b_384.New()
-		case "b.reg256":
-			h = crypto.BLAKE2b_256.New()
-		case "s.reg256":
-			h = crypto.BLAKE2s_256.New()
-		default:
+		bad := false
+		// the key is handed over in a guarded buffer that is overwritten right after the constructor returns:
+		// Reset must restore the ORIGINAL key from the hash's own copy
+		m.input("key", key, func(key []byte) {
+			switch alg + "." + o.Str("ctor") {
+			case "b.new":
+				h, err = blake2b.New(o.Int("size"), key)
+			case "b.new512":
+				h, err = blake2b.New512(key)
+			case "b.new384":
+				h, err = blake2b.New384(key)
+			case "b.new256":
+				h, err = blake2b.New256(key)
+			case "s.new256":
+				h, err = blake2s.New256(key)
+			case "s.new128":
+				h, err = blake2s.New128(key)
+			case "b.reg512":
+				h = crypto.BLAKE2b_512.New()
+			case "b.reg384":
+				h = crypto.BLAKE2b_384.New()
+			case "b.reg256":
+				h = crypto.BLAKE2b_256.New()
+			case "s.reg256":
+				h = crypto.BLAKE2s_256.New()
+			default:
+				bad = true
+			}
+		})
+		if bad {
 			return "bad-op"
 		}
 		if err != nil {
-			return "err"
+			return "err mut=" + m.String()
 		}
 		if ini := o.Str("init"); ini != "-" {
-			if h.(encoding.BinaryUnmarshaler).UnmarshalBinary(hx.UnHex(ini)) != nil {
-				return "uerr"
+			var uerr error
+			m.input("state", hx.UnHex(ini), func(st []byte) {
+				uerr = h.(encoding.BinaryUnmarshaler).UnmarshalBinary(st)
+			})
+			if uerr != nil {
+				return "uerr mut=" + m.String()
 			}
 		}
 		data := o.Hex("data")
+		maxDigest := 64
 		var outs []string
-		for _, op := range o.List("ops") {
+		for k, op := range o.List("ops") {
 			switch {
 			case op == "s":
-				outs = append(outs, hx.Hex(h.Sum(nil)))
+				// Sum(b) appends: vary the prefix and whether its capacity has room for the digest
+				prefix := []byte("prefix-bytes")[:(k*5)%13]
+				d := m.sumInto(prefix, k%2 == 0, maxDigest, h.Sum)
+				outs = append(outs, hx.Hex(d))
 			case op == "r":
 				h.Reset()
 			case op == "z":
@@ -359,7 +384,14 @@ func exec(line string) string {
 				if n > len(data) {
 					return "bad-op"
 				}
-				if m, err := h.Write(data[:n]); m != n || err != nil {
+				ok := true
+				// Write must neither modify nor retain p: the buffer is overwritten as soon as Write returns
+				m.input("p", data[:n:n], func(p []byte) {
+					if w, err := h.Write(p); w != n || err != nil {
+						ok = false
+					}
+				})
+				if !ok {
 					return "write-failed"
 				}
 				data = data[n:]
@@ -368,9 +400,9 @@ func exec(line string) string {
 			}
 		}
 		if len(outs) == 0 {
-			return "none"
+			return "none mut=" + m.String()
 		}
-		return strings.Join(outs, "|")
+		return strings.Join(outs, "|") + " mut=" + m.String()
 	}
 	return "bad-op"
 }
